@@ -9,19 +9,36 @@
   * emission of a captured program as a Coq term + the Tier-2 goal files
   * small generators used by several plug-ins (clue grids, region partitions)
 
+Adding a puzzle <p> (no shared file is touched; everything is discovered from harness/c11/*.py):
+  1. coq/theories/Puzzle/Rules_<p>.v: header quoting the published rules and documenting the encoding
+     (problem = list of Z lists, section 0 = dimensions; answer = the returned arrays flattened in the
+     order solve_<p> returns them, bool = 1/0), `Definition rules_<p> : problem -> answer -> bool` using
+     only PuzzleBase.v / GraphModel.v vocabulary, and `Definition answers_<p> : problem -> list answer`
+     (normally `all_answers` of the per-cell domains; a narrower list must contain every rule-obeying grid).
+  2. harness/c11/<p>.py with the attributes below.  `./check C11` regenerates coq/extract/C11/{Extract.v,
+     driver.ml} from the plug-in list, runs search + Tier 2 for the new puzzle; `C11_ONLY=<p> ./check C11`
+     runs just that puzzle.
+  3. optional Tier 1: coq/theories/Puzzle/<Model>.v with `solve_<p>_model : problem -> res state`
+     (+ <Model>Proofs.v, theorem <p>_exact; add the final statement to Props/C11.v), plug-in attribute
+     TIER1 = ("<Model>", "solve_<p>_model") and `tier1_problems(tier, rng)`; the capture tie is automatic.
+
 Plug-in interface (module attributes):
     NAME      puzzle name; Rules_<NAME>.v must define rules_<NAME>, answers_<NAME>
-    MODULE    python module (e.g. "cspuz.puzzle.sudoku");  FUNC  solve function name
-    LOOP      optional bool, informational
+    MODULE    python module (e.g. "cspuz.puzzle.sudoku");  FUNC  solve function name (informational)
     def families(tier, rng)      -> iterable of problems (JSON-able python values), the search family
-    def tier2(tier, rng)         -> iterable of problems for the kernel-checked instance goals ([] = none)
+    def tier2(tier, rng)         -> iterable of problems for the kernel-checked instance goals ([] = none);
+                                    keep each instance below ~10 s of vm_compute (boards of <= 5 cells when the
+                                    solver posts a connectivity encoding)
     def call(mod, pb)            -> the tuple solve_<p> returns
     def encode(pb)               -> list of int lists = the `problem` of Rules_<NAME>.v
-    def answer_arrays(ret)       -> optional; the returned arrays to read (default: ret[1:])
-    def classify(pb, what)       -> optional; stable key for a violation on pb (default: NAME:<problem>)
     def ncand(pb)                -> number of candidate answers (= length of answers_<NAME> pb), computed arithmetically
+    def answer_arrays(ret)       -> optional; the returned arrays to read (default: ret[1:])
+    def classify(pb, what)       -> optional; stable key for a violation on pb (default: NAME:<problem>);
+                                    instances whose key is a `known:` line are left out of Tier 2
     MAX_ANSWERS                  -> optional cap on the candidate-answer count for which a problem is enumerated
                                     (default 70000 quick / 300000 thorough)
+    T2_PER_FILE                  -> optional number of Tier-2 instances per generated file (default 6)
+    TIER1, tier1_problems        -> optional, see 3.
 """
 import importlib
 import itertools
